@@ -79,6 +79,8 @@ type batch struct {
 	bin    string
 	progs  []*sdl.Program
 	buildS float64
+	// yieldPoints: number of yield points inserted by the linsim instrumenter
+	yieldPoints int
 }
 
 func mix(a, b uint64) uint64 {
@@ -158,7 +160,65 @@ func TestWorker(t *testing.T) {
 }
 `
 
+// linTargets are the files that get a yield point before every statement (linsim).
+var linTargets = map[string]bool{"util/sync2/map.go": true, "util/list/concurrent_set.go": true, "util/list/generic_concurrent_set.go": true}
+
+// copyLin copies util/sync2 and util/list from the current working tree of /repo into the
+// batch module (lin/sync2, lin/list) and instruments the target files.
+func copyLin(dir string) (int, error) {
+	points := 0
+	for _, pkg := range []string{"util/sync2", "util/list"} {
+		ents, err := os.ReadDir(filepath.Join(repoDir, pkg))
+		if err != nil {
+			return 0, err
+		}
+		for _, e := range ents {
+			if e.IsDir() || !strings.HasSuffix(e.Name(), ".go") || strings.HasSuffix(e.Name(), "_test.go") {
+				continue
+			}
+			src, err := os.ReadFile(filepath.Join(repoDir, pkg, e.Name()))
+			if err != nil {
+				return 0, err
+			}
+			if linTargets[pkg+"/"+e.Name()] {
+				out, n, err := gen.Instrument(e.Name(), src)
+				if err != nil {
+					return 0, fmt.Errorf("instrument %s: %v", e.Name(), err)
+				}
+				src = out
+				points += n
+			}
+			writeFile(filepath.Join(dir, "lin", filepath.Base(pkg), e.Name()), string(src))
+		}
+	}
+	return points, nil
+}
+
+const workerMainLin = `package worker
+
+import (
+	"testing"
+
+	linlist "verifbatch/lin/list"
+	linsync2 "verifbatch/lin/sync2"
+	"verifbatch/progs"
+	"verifsim/engine"
+)
+
+func TestWorker(t *testing.T) {
+	engine.WorkerMain(t, &engine.Binding{Types: progs.Types, Lin: &engine.LinBinding{
+		NewMap:  func() engine.LinMap { return linsync2.New[string, int]() },
+		NewSet:  func() engine.LinSet { return linlist.NewConcurrentSets() },
+		NewGSet: func() engine.LinSet { return linlist.NewGenericConcurrentSets[string]() },
+	}})
+}
+`
+
 func buildBatch(progs []*sdl.Program, race bool, tag string) (*batch, error) {
+	return buildBatchX(progs, race, false, tag)
+}
+
+func buildBatchX(progs []*sdl.Program, race, lin bool, tag string) (*batch, error) {
 	dir, err := os.MkdirTemp("", "verif-"+tag+"-")
 	if err != nil {
 		return nil, err
@@ -181,7 +241,16 @@ replace verifsim => %s
 	sum, _ := os.ReadFile(filepath.Join(verifDir, "sim", "go.sum"))
 	writeFile(filepath.Join(dir, "go.sum"), string(sum))
 	writeFile(filepath.Join(dir, "progs", "progs.go"), gen.Emit(progs))
-	writeFile(filepath.Join(dir, "worker", "main_test.go"), workerMain)
+	if lin {
+		n, err := copyLin(dir)
+		if err != nil {
+			return b, fmt.Errorf("linsim instrumentation failed: %v", err)
+		}
+		b.yieldPoints = n
+		writeFile(filepath.Join(dir, "worker", "main_test.go"), workerMainLin)
+	} else {
+		writeFile(filepath.Join(dir, "worker", "main_test.go"), workerMain)
+	}
 	writeJSONFile(filepath.Join(dir, "batch.json"), progs)
 	b.bin = filepath.Join(dir, "worker.test")
 	args := []string{"test", "-c", "-tags", "verif", "-o", b.bin}
@@ -363,6 +432,7 @@ type agg struct {
 	samples                                           []any
 	findings                                          []proto.Finding
 	workerWall                                        float64
+	yieldPoints                                       int
 }
 
 func newAgg() *agg {
@@ -424,51 +494,83 @@ func cmdCheck(id, tier string, seed uint64) int {
 	var buildS float64
 	batches := 0
 	seedsUsed := []uint64{}
+	type phase struct {
+		name            string
+		race, lin, prog bool
+	}
+	phases := []phase{{"", pc.Race, false, pc.Engine == "startsim"}}
+	if pc.Engine == "racesim+linsim" {
+		phases = []phase{{"racesim", true, false, true}, {"linsim", false, true, false}}
+	}
+	yieldPoints := 0
+batches:
 	for batchNo := 0; ; batchNo++ {
-		progs := genBatch(pc, seed, batchNo, nProgs, tier)
-		if pc.Engine != "startsim" && pc.Engine != "racesim" {
-			progs = nil
-		}
-		b, err := buildBatch(progs, pc.Race, id)
-		if err != nil {
+		for phi, ph := range phases {
+			var progs []*sdl.Program
+			if ph.prog {
+				progs = genBatch(pc, seed, batchNo, nProgs, tier)
+			}
+			b, err := buildBatchX(progs, ph.race, ph.lin, id)
+			if err != nil {
+				b.cleanup()
+				fmt.Println(err)
+				die(2, "build trouble (not a verdict)")
+			}
+			buildS += b.buildS
+			yieldPoints = max(yieldPoints, b.yieldPoints)
+			batches++
+			seedsUsed = append(seedsUsed, mix(seed, uint64(batchNo)))
+			remain := budget - (nowS() - t0)
+			if len(phases) > 1 {
+				remain = remain / float64(len(phases)-phi)
+			}
+			var jobs []*proto.Job
+			if ph.prog {
+				jobs = makeJobs(pc, b, tier, seed, batchNo, k, workers, remain)
+			} else {
+				jobs = makeOtherJobs(pc, b, ph.name, tier, seed, batchNo, workers, remain)
+			}
+			env := workerEnv(ph.race, b)
+			for attempt := 0; attempt < 4 && len(jobs) != 0; attempt++ {
+				outs := runWorkers(b, jobs, env, stallLimitS)
+				var retry []*proto.Job
+				for _, wo := range outs {
+					if wo.res != nil {
+						a.add(wo.res)
+						if wo.res.Error != "" {
+							trouble += fmt.Sprintf("worker %d: %s\n", wo.idx, wo.res.Error)
+						}
+					}
+					if wo.race != "" {
+						fs, tr, rest := attributeRace(pc, b, wo, jobs[wo.idx])
+						a.findings = append(a.findings, fs...)
+						trouble += tr
+						if rest != nil && len(rest.ProgIdx) != 0 {
+							retry = append(retry, rest)
+						}
+						continue
+					}
+					if wo.err != "" || wo.killed {
+						f, tr := attributeCrash(pc, b, wo, jobs[wo.idx])
+						if f != nil {
+							a.findings = append(a.findings, *f)
+						} else {
+							trouble += tr
+						}
+					}
+				}
+				jobs = retry
+			}
 			b.cleanup()
-			fmt.Println(err)
-			die(2, "build trouble (not a verdict)")
 		}
-		buildS += b.buildS
-		batches++
-		seedsUsed = append(seedsUsed, mix(seed, uint64(batchNo)))
-		jobs := makeJobs(pc, b, tier, seed, batchNo, k, workers, budget-(nowS()-t0))
-		outs := runWorkers(b, jobs, workerEnv(pc, b), stallLimitS)
-		for _, wo := range outs {
-			if wo.res != nil {
-				a.add(wo.res)
-				if wo.res.Error != "" {
-					trouble += fmt.Sprintf("worker %d: %s\n", wo.idx, wo.res.Error)
-				}
-			}
-			if wo.err != "" || wo.killed {
-				f, tr := attributeCrash(pc, b, wo, jobs[wo.idx])
-				if f != nil {
-					a.findings = append(a.findings, *f)
-				} else {
-					trouble += tr
-				}
-			}
-			if wo.race != "" {
-				fs, tr := attributeRace(pc, b, wo, jobs[wo.idx])
-				a.findings = append(a.findings, fs...)
-				trouble += tr
-			}
-		}
-		b.cleanup()
-		if tier != "thorough" || nowS()-t0 > budget-30 || trouble != "" || pc.Engine == "oneshot" {
-			break
+		if tier != "thorough" || nowS()-t0 > budget-30 || trouble != "" {
+			break batches
 		}
 		if len(a.findings) > 40 {
-			break
+			break batches
 		}
 	}
+	a.yieldPoints = yieldPoints
 	// report findings
 	known := loadKnown()
 	os.MkdirAll(filepath.Join(verifDir, "replays"), 0o755)
@@ -561,9 +663,6 @@ func sortedKeys[V any](m map[string]V) []string {
 
 func makeJobs(pc *propCfg, b *batch, tier string, seed uint64, batchNo, k, workers int, remainS float64) []*proto.Job {
 	n := len(b.progs)
-	if pc.Engine != "startsim" && pc.Engine != "racesim" {
-		return makeOtherJobs(pc, b, tier, seed, batchNo, workers, remainS)
-	}
 	if workers > n {
 		workers = n
 	}
@@ -588,9 +687,9 @@ func makeJobs(pc *propCfg, b *batch, tier string, seed uint64, batchNo, k, worke
 	return jobs
 }
 
-func workerEnv(pc *propCfg, b *batch) []string {
-	if pc.Race {
-		return []string{"GORACE=halt_on_error=0 history_size=5"}
+func workerEnv(race bool, b *batch) []string {
+	if race {
+		return []string{"GORACE=halt_on_error=1 exitcode=66 history_size=4"}
 	}
 	return nil
 }
